@@ -25,7 +25,7 @@ RULE = ('case = one history (operation sequence) from the bounded-exhaustive enu
         'the evidence also reports distinct abstract model states visited')
 ASSUMPTIONS = ['two self-signatures made in the same second: either may count as the most recent', 'a certification revocation is not a self-certification: the effective '
                'parameters of a revoked identity are not compared']
-MIN_COUNTERS = {'quick': {'histories': 600, 'steps_checked': 1200, 'selfsigs_verified_by_reference': 3000, 'effective_params_compared': 2500, 'reimports': 1200},
+MIN_COUNTERS = {'quick': {'histories': 600, 'steps_checked': 1200, 'selfsigs_verified_by_reference': 3000, 'effective_params_compared': 2500, 'reimports': 1200, 'walks_starting_from_foreign_key': 5},
                 'thorough': {'histories': 6000}}
 BUDGET = {'quick': (600, 1500), 'thorough': (2400, 3600)}
 TECHNIQUE = 'runtime monitoring: history monitor against a sequential certificate model + reference verification of every export; bounded-exhaustive short histories + random deep walks'
@@ -72,14 +72,26 @@ class Model(object):
 class Actor(object):
     """one key + its model; operations mirror PGPy calls and model updates"""
 
-    def __init__(self, pgpy, primary, idx=0):
+    def __init__(self, pgpy, primary, idx=0, foreign=None):
         from pgpy.constants import KeyFlags, HashAlgorithm
         self.pgpy = pgpy
         self.idx = idx
         self.m = Model(primary)
-        self.k = pool.pgpy_bare(primary)
         self.spare_subs = [s for s in ['cv25519_%d' % idx, 'ed25519_3', 'ecdsa_p256_1', 'rsa1024_1', 'ecdh_p256_0'] if s != primary]
         self.nuid = 0
+        if foreign:
+            # the history starts from a key another implementation made (reference encoder/signer, legal non-PGPy encodings)
+            from .. import foreignkey
+            sub = self.spare_subs.pop(0)
+            self.nuid = 1
+            text = 'Key%d User1' % idx
+            blob, info = foreignkey.build(primary, sub, foreign, uid=('%s <u1@k%d.example>' % (text, idx)).encode(), created=None)
+            self.k = pgpy.PGPKey.from_blob(blob)[0]
+            self.m.uids[text] = {'sigs': [self.rec(['Certify', 'Sign'], ['SHA256', 'SHA512'], True, None, datetime.fromtimestamp(pool.mat(primary)['created'] + 10, timezone.utc))], 'revoked': False}
+            sm = pool.mat(sub)
+            self.m.subs[sub] = {'bindings': [['foreign']], 'revoked': False, 'signing': sm['alg'] != 18}
+            return
+        self.k = pool.pgpy_bare(primary)
         self.do_add_uid(first=True)
 
     # -- helpers
@@ -335,7 +347,11 @@ def run_case(ctx, d):
         else:
             r = ctx.rng('walk', d['w'], d['seed'])
             prim = r.sample(['ed25519_0', 'rsa1024_0', 'ecdsa_p256_0', 'dsa1024_0', 'ecdsa_k256_0', 'ed25519_1'], 3)
-            actors = [Actor(pgpy, p, i) for i, p in enumerate(prim)]
+            from .. import foreignkey
+            # every third walk: one of the three keys was made by another implementation
+            actors = [Actor(pgpy, p, i, foreign=(foreignkey.STYLES[(d['w'] // 3 + i) % len(foreignkey.STYLES)] if d['w'] % 3 == 0 and i == d['w'] % 2 else None)) for i, p in enumerate(prim)]
+            if any(x for x in actors if x.m.subs):
+                ctx.count('walks_starting_from_foreign_key')
             ctx.count('histories')
             trace = []
             for step in range(d['n']):
